@@ -503,7 +503,10 @@ def rule_init(ctx, tu):
             ctx.check(v not in bad, R, n, f.qual, text(n), "assigned on every path before its first read",
                       "read at line %s on a path where it has not been assigned"
                       % (cxfe.line(bad[v]) if v in bad else "?"))
-    ctx.floor(R, 2)
+    # an obligation exists only for locals declared without an initialiser: giving them one removes the obligation, it does not
+    # hide anything -- so the count has no floor; the scan itself is recorded
+    ctx.ok(R, None, "engine", "%d scalar locals are declared without an initialiser" % n_inst, "each checked above", nontrivial=False)
+    ctx.floor(R, 1)
 
 
 def run(ctx):
